@@ -13,6 +13,70 @@ Import ListNotations.
 Open Scope N_scope.
 Open Scope list_scope.
 
+(* ---- encode_plain as the writer does it, read back by read_plain (the leftover is ignored by every caller) ---- *)
+Lemma firstn_le_enc : forall m k n, (m <= k)%nat -> firstn m (le_enc k n) = le_enc m n.
+Proof.
+  induction m as [|m IH]; intros k n H; [reflexivity|].
+  destruct k as [|k]; [lia|]. cbn [le_enc firstn]. f_equal. apply IH. lia.
+Qed.
+
+Lemma pow256 m : 256 ^ m = 2 ^ (8 * m).
+Proof. change 256 with (2 ^ 8). now rewrite <- N.pow_mul_r. Qed.
+
+(* read_plain of a BOOLEAN page as the writer packs it (one padding byte too many when 8 | n): exactly
+   ceil(n / 8) bytes are taken, and they unpack to the bits *)
+Lemma plain_dec_wr_bools tlen bits rest : WLevelsProofs.is_bits bits ->
+  exists r', plain_dec BOOLEAN tlen (N.of_nat (length bits)) (wr_bools bits ++ rest) = Some (map VNum bits, r').
+Proof.
+  intros HB. unfold plain_dec.
+  set (n := N.of_nat (length bits)). set (nb := (n + 7) / 8).
+  set (W := wr_bools bits).
+  assert (LW : N.of_nat (length W) = n / 8 + 1) by apply WLevelsProofs.wr_bools_length.
+  assert (NB : nb <= N.of_nat (length W)).
+  { rewrite LW. unfold nb. 
+    pose proof (N.div_mod n 8 ltac:(lia)). pose proof (N.mod_upper_bound n 8 ltac:(lia)).
+    assert (n + 7 < 8 * (n / 8 + 2)) by lia.
+    apply N.lt_succ_r. replace (N.succ (n / 8 + 1)) with (n / 8 + 2) by lia.
+    apply N.div_lt_upper_bound; lia. }
+  set (d := firstn (N.to_nat nb) W).
+  assert (LD : len d = nb).
+  { unfold d, len. rewrite firstn_length_le by lia. apply N2Nat.id. }
+  replace (W ++ rest) with (d ++ (skipn (N.to_nat nb) W ++ rest)) by (unfold d; now rewrite app_assoc, firstn_skipn).
+  rewrite <- LD, take_app. eexists. f_equal. f_equal.
+  (* the bits *)
+  unfold d, W, wr_bools, bp_enc. rewrite firstn_le_enc.
+  2:{ unfold W, wr_bools, bp_enc in LW, NB. rewrite le_enc_length in LW, NB. lia. }
+  unfold bp_dec. rewrite bp_unpack_ref, le2n_tr_ok, le2n_le_enc, N2Nat.id, pow256.
+  rewrite bp_dec_ref_mod.
+  2:{ unfold n. rewrite Nat2N.id, N.mul_1_r. unfold nb, n.
+      pose proof (N.div_mod (N.of_nat (length bits) + 7) 8 ltac:(lia)).
+      pose proof (N.mod_upper_bound (N.of_nat (length bits) + 7) 8 ltac:(lia)). lia. }
+  unfold n. rewrite Nat2N.id.
+  rewrite (WLevelsProofs.bp_dec_ref_prefix 1 (length bits) (length (pad_writer bits))).
+  2:{ unfold pad_writer. rewrite app_length. lia. }
+  rewrite bp_dec_ref_num.
+  - unfold pad_writer. rewrite firstn_app, Nat.sub_diag, firstn_all. cbn [firstn]. now rewrite app_nil_r.
+  - unfold pad_writer. apply Forall_app. split; [exact HB|apply WLevelsProofs.zeros_bits].
+Qed.
+
+Lemma w_plain_num t k vs : num_width t = Some k -> w_plain t vs = plain_enc t vs.
+Proof. destruct t; cbn [num_width]; intros H; try discriminate H; reflexivity. Qed.
+
+Lemma w_plain_dec t tlen vs rest : Forall (fun v => value_ok t tlen v = true) vs ->
+  exists r', plain_dec t tlen (lenN vs) (w_plain t vs ++ rest) = Some (vs, r').
+Proof.
+  intros H. destruct t; try (exists rest; cbn [w_plain]; rewrite lenN_ok; now apply plain_roundtrip).
+  cbn [w_plain].
+  assert (B : WLevelsProofs.is_bits (map num_of vs)).
+  { unfold WLevelsProofs.is_bits. apply Forall_forall. intros x Hx. apply in_map_iff in Hx. destruct Hx as (v & <- & Hv).
+    rewrite Forall_forall in H. specialize (H v Hv). destruct v as [n|b]; cbn [value_ok] in H; [|discriminate].
+    apply N.ltb_lt in H. cbn [num_of]. exact H. }
+  destruct (plain_dec_wr_bools tlen (map num_of vs) rest B) as (r' & E).
+  exists r'. rewrite lenN_ok. rewrite map_length in E. rewrite E. f_equal. f_equal.
+  rewrite map_map. rewrite <- (map_id vs) at 2. apply map_ext_in. intros v Hv.
+  rewrite Forall_forall in H. specialize (H v Hv). destruct v as [n|b]; cbn [value_ok] in H; [reflexivity|discriminate].
+Qed.
+
 (* ---- masks, non-null values, scatter ------------------------------------------------------------ *)
 Lemma mask_bits {A} (l : list (option A)) : WLevelsProofs.is_bits (mask_of l).
 Proof. unfold WLevelsProofs.is_bits, mask_of. apply Forall_forall. intros x Hx. apply in_map_iff in Hx. destruct Hx as ([a|] & <- & _); cbn; lia. Qed.
@@ -166,7 +230,7 @@ Qed.
 Definition wp_ok (c : wchunk) (p : wpage) : Prop :=
   0 < w_rows p /\ w_rows p < 2 ^ 31 /\ (wc_optional c = false -> w_nonnull p = w_rows p) /\
   match p with
-  | WPlainP cells => wc_type c <> BOOLEAN /\ Forall (fun v => value_ok (wc_type c) (wc_tlen c) v = true) (somes cells)
+  | WPlainP cells => Forall (fun v => value_ok (wc_type c) (wc_tlen c) v = true) (somes cells)
   | WDictP codes => k_ok (wc_k c) /\ Forall (fun x => 2 * x < 256 ^ N.of_nat (wc_k c)) (somes codes) /\ wc_labels c <> None
   end.
 
@@ -189,8 +253,8 @@ Proof.
   replace (w_rows p - (w_rows p - w_nonnull p)) with (w_nonnull p) by lia.
   destruct p as [pc|codes]; cbn [w_enc w_values w_page_cells w_nonnull w_rows w_mask] in *.
   - (* ordinary column, PLAIN *)
-    injection PC as <-. destruct OK as [NBOOL VOK]. cbn [Z.eqb E_PLAIN cd_of cd_type cd_tlen cd_maxdef].
-    rewrite lenN_ok. rewrite plain_roundtrip by exact VOK. cbn [rbind].
+    injection PC as <-. rename OK into VOK. cbn [Z.eqb E_PLAIN cd_of cd_type cd_tlen cd_maxdef].
+    destruct (w_plain_dec (wc_type c) (wc_tlen c) (somes pc) [0; 0; 0; 0; 0; 0; 0; 0] VOK) as (r' & PD). rewrite PD. cbn [rbind].
     destruct DEFI as [[-> FULL]|[-> OPT]].
     + rewrite !lenN_ok in FULL. f_equal. apply all_some. lia.
     + rewrite OPT. now rewrite (cells_of_mask (A:=unit) pc []).
@@ -309,14 +373,14 @@ Proof.
   { intros A K. unfold deflate. destruct (wc_codec c =? 0)%Z; cbn [andb negb]; rewrite ?codec_rt; reflexivity. }
   destruct p as [pc|codes]; cbn [w_enc w_values w_page_cells w_nonnull w_rows w_mask] in *.
   - (* PLAIN *)
-    injection PC as <-. destruct OK as [NBOOL VOK]. cbn [Z.eqb E_PLAIN cd_of cd_type cd_tlen].
-    pose proof (plain_roundtrip (wc_type c) (wc_tlen c) (somes pc) [] VOK) as PR. rewrite app_nil_r, <- lenN_ok in PR.
+    injection PC as <-. rename OK into VOK. cbn [Z.eqb E_PLAIN cd_of cd_type cd_tlen].
+    destruct (w_plain_dec (wc_type c) (wc_tlen c) (somes pc) [] VOK) as (r' & PR). rewrite app_nil_r in PR.
     destruct (inplace && (lenN pc - lenN (somes pc) =? 0)) eqn:IP.
     + apply andb_true_iff in IP. destruct IP as [-> Z0]. apply N.eqb_eq in Z0.
       rewrite RAW. specialize (INP eq_refl). cbn beta iota in INP.
       destruct (num_width (wc_type c)) as [kw|] eqn:NW; [|now contradiction INP].
-      assert (LB : lenN (plain_enc (wc_type c) (somes pc)) = kw * lenN (somes pc)).
-      { rewrite (lenN_ok (somes pc)). apply (plain_enc_num_len (wc_type c) kw (somes pc) NW).
+      assert (LB : lenN (w_plain (wc_type c) (somes pc)) = kw * lenN (somes pc)).
+      { rewrite (w_plain_num _ _ _ NW), (lenN_ok (somes pc)). apply (plain_enc_num_len (wc_type c) kw (somes pc) NW).
         - apply Forall_forall. intros; now right.
         - intros v Hv'. rewrite Forall_forall in VOK. destruct (value_ok_num _ _ _ _ NW (VOK v Hv')) as (n0 & -> & _). eauto. }
       rewrite LB, N.eqb_refl, PR. f_equal. apply all_some. rewrite !lenN_ok in Z0, LE. lia.
@@ -461,7 +525,7 @@ Proof.
       rewrite !z2n_of_N. cbn [rbind]. rewrite takeN_app_exact, dropN_app_exact.
       rewrite (read_page_deflate compress decompress codec_rt). cbn [rbind]. rewrite ?z2n_of_N. cbn [rbind].
       cbn [cd_of cd_type cd_tlen].
-      pose proof (plain_roundtrip (wc_type c) (wc_tlen c) labels [] VD) as PR. rewrite app_nil_r, <- lenN_ok in PR. rewrite PR.
+      destruct (w_plain_dec (wc_type c) (wc_tlen c) labels [] VD) as (r' & PR). rewrite app_nil_r in PR. rewrite PR.
       pose proof (rd_pages_writer selfmade skip_nulls inplace c (sumN (map w_rows (wc_pages c))) (wc_pages c) clock' 0 [] cells
                     W HW SK INP C) as RD.
       rewrite LBL in RD. unfold wp_bytes in RD. fold restb in RD. rewrite RD by (try exact L'; lia). reflexivity.
